@@ -9,7 +9,7 @@ SPECS = {"mapiter": (MapIterSpec(), "harness_parmap", "runner-parmap"), "mapstre
 
 
 def run(ctx):
-    proofs_ok = ctx.check_proofs(PROP_FILES, extra_targets=["theories/Conc/ParMap.vo"])
+    proofs_ok = ctx.check_proofs(PROP_FILES, extra_targets=["theories/Conc/ParMap.vo", "theories/Conc/ParMapMatcher.vo"])
     ok, out, exe = vlib.build_runner(module="harness_parmap", exe_name="runner-parmap")
     if not ok:
         ctx.violation("harness-build", "the harness does not build against the current tree: " + out[-1500:],
